@@ -5,22 +5,37 @@
     * Tie A  `tieA_raise_sites` / `tieA_assert_sites`: the `raise` / `assert` statements found in the
       source NOW are exactly the classified ones of `RattrModel.Crash` (a new `raise` breaks the build);
       `reachable_rows_listed`: every row a site is classified into is one of the known crash rows.
-    * `C07_terminates`: the two work-list loops (call tree, import following) finish within their
-      bounds, and the function-analyser model is a total function (structural recursion).
+    * `C07_terminates`, `C07_pipeline_terminates`: the work-list loops (call tree, import following) finish
+      within their bounds, every stage model is a total function, result generation never runs out of fuel.
     * `C07_fn_no_crash_partial`: for EVERY function body satisfying the decidable shape predicate
-      `Crash.NoCrashShapeFn`, every plugin table, module name, root context and parameter list, the
-      function analyser does not end in an unhandled exception. "partial": the predicate is
-      conservative (see RattrModel/Crash.lean §2): it treats every call as possibly dispatched to a
-      custom analyser and excludes `key=<lambda>` keywords altogether.
-    * one counterexample theorem per crash row expressible in the function-analyser model
-      (K3, K4 x4, K5 x2, + `defaultdict((a+b).c)`), each with the exception class the real code
-      raises; `C07_full` (crash-freedom without the predicate) is refuted: `C07_full_false`.
-  The other stages (file / class / root context / imports / results / CLI) are covered by the
-  raise-site table and by the CLI sweep of py/props/c07.py, not by a theorem.
+      `Crash.NoCrashShapeFn`, every plugin table, module name, parameter list and every SANE root context
+      (`Crash.SaneCtx`: builtins under their own names, no import qualified `getattr`/…; decidable, true of
+      every context the root-context builder produces: `C07_file_root_context_sane`), the function analyser
+      does not end in an unhandled exception; `C07_fn_restores_context`: it hands the enclosing context back
+      unchanged. `C07_fn_no_crash_anyctx_partial` is the round-1 theorem (every context, narrower predicate).
+    * `C07_file_no_crash_partial`: for EVERY module satisfying `Crash.NoCrashShapeFile` (RattrModel/CrashFile.lean)
+      the root-context builder, the file / class analysers and the whole single-file pipeline end `ok` or
+      `fatal`; the only exceptions left are the three of result generation (`Crash.resultsCrashes`), which are
+      real (`C07_cex_file_K22_results_unbind`, `C07_cex_file_K9_results_import_error`).
+    * `C07_results_no_crash_partial`: for EVERY FileIr satisfying `Crash.ResultsSafe` (names start with their
+      basename, no starred parameter name, imports found) result generation ends with a document;
+      `C07_pipeline_no_crash_partial`: for EVERY module satisfying `Crash.NoCrashShapePipeline` the whole
+      `-f 0` run ends `ok` / `fatal`.
+    * one counterexample theorem per crash row expressible in the models (function level: K3, K4 x4, K5 x2,
+      `defaultdict((a+b).c)`, K22; module level: K1, K8, K4, K2, K7, customOnDef, K11; result generation: K22, K9),
+      each with the exception class the real code raises; the unconditional statements are refuted
+      (`C07_full_false`, `C07_pipeline_full_false`).
+  Import following (several files), the cache and the CLI are covered by the raise-site table and by the CLI
+  sweep of py/props/c07.py, not by a theorem. `ResultsSafe` is a condition on the FileIr the front-stage MODEL
+  computes, not on the syntax of the module: that every name the analysers produce outside K22 starts with its
+  basename is proved for `key=` lambda bodies only (`QName`, RattrProofs/Lemmas/C07Wide.lean).
 -/
 import RattrModel.Crash
 import RattrModel.Generated.C07
 import RattrProofs.Lemmas.C07Induction
+import RattrProofs.Lemmas.C07WideInduction
+import RattrProofs.Lemmas.C07File
+import RattrProofs.Lemmas.C07Results
 import RattrProofs.Lemmas.Results
 import RattrProofs.Props.C12
 
@@ -38,7 +53,7 @@ theorem tieA_assert_sites : Generated.C07.assertSites = classifiedAssertSites.ma
 
 /-- the crash rows that own a raise / assert site are known rows (K-rows of DESIGN §7 + K11). -/
 theorem reachable_rows_listed :
-    reachableRows = ["K11", "K5", "K2", "K4", "K1", "K3", "K10", "K9", "K8"] := by
+    reachableRows = ["K11", "K5", "K2", "K4", "K1", "K3", "K10", "K9", "K22", "K8"] := by
   decide +kernel
 
 /-! ### Termination -/
@@ -61,14 +76,39 @@ theorem C07_terminates :
 def FnNoCrash (body : List Node) : Prop :=
   ∀ env mn root ps, ¬ ∃ s e, FnA.analyse env mn root ps body = .crash s e
 
-/-- **Main theorem.** -/
-theorem C07_fn_no_crash_partial (body : List Node) (h : NoCrashShapeFn body = true) : FnNoCrash body := by
+/-- **Round-1 theorem** (every root context, also contexts no run can produce). -/
+theorem C07_fn_no_crash_anyctx_partial (body : List Node) (h : NoCrashShapeFnAnyCtx body = true) : FnNoCrash body := by
   intro env mn root ps ⟨s, e, he⟩
   unfold FnA.analyse at he
   have : NC (visitList env mn body (addArguments { ctx := Context.push root } ps) >>>=
       fun s => .ok { s with ctx := Context.pop s.ctx }) :=
     nc_bind (visitList_nc env mn body _ h) (fun s => nc_ok _)
   exact this s e he
+
+/-- the property for one body over the contexts rattr builds: a builtin is stored under its own name and no
+import is qualified `getattr` / `hasattr` / `setattr` / `delattr` (`SaneCtx`, decidable). -/
+def FnNoCrashSane (body : List Node) : Prop :=
+  ∀ env mn root ps, SaneCtx root = true → ¬ ∃ s e, FnA.analyse env mn root ps body = .crash s e
+
+/-- **Main theorem** (wider predicate, RattrModel/Crash.lean §3): for EVERY body satisfying `NoCrashShapeFn`,
+every plugin table, module name, parameter list and every sane root context, the function analyser does
+not end in an unhandled exception. -/
+theorem C07_fn_no_crash_partial (body : List Node) (h : NoCrashShapeFn body = true) : FnNoCrashSane body := by
+  intro env mn root ps hroot ⟨s, e, he⟩
+  exact (analyse_spec env mn root ps body h hroot).1 s e he
+
+/-- … and a normal end hands the enclosing context back exactly as it was: whatever the function's body
+declares, deletes or shadows happens in scopes of its own (what the file analyser relies on when it analyses
+the next function in "the same" context object). -/
+theorem C07_fn_restores_context (body : List Node) (h : NoCrashShapeFn body = true) (env : Env) (mn : Str)
+    (root : Context) (ps : Params) (hroot : SaneCtx root = true) (s : St)
+    (he : FnA.analyse env mn root ps body = .ok s) : s.ctx = root :=
+  (analyse_spec env mn root ps body h hroot).2 s he
+
+/-- **The predicate was widened, not moved**: every body the round-1 predicate accepts is accepted by
+`NoCrashShapeFn` (mutual induction over the node; strictness: `widerBody` below). -/
+theorem C07_shape_widened (body : List Node) (h : NoCrashShapeFnAnyCtx body = true) : NoCrashShapeFn body = true :=
+  shape_widened body h
 
 /-- After the `del` fix (adebbdf) the model unbinds by FULL name; the predicate's `del` clause
 (`unravelFullOk`) accepts exactly the targets the old clause (`unravelOk`) accepted, so the hypothesis of
@@ -132,10 +172,18 @@ theorem C07_cex_K5_getattr_argument : run ["a", "b"] k5ArgBody = some (S "RattrB
 def ddBody : List Node := [.other (S "Expr") [.call (nm "defaultdict") [.attr (binop (nm "a") (nm "b")) (S "c") .load] [] []]]
 theorem C07_cex_defaultdict_factory : run ["a", "b"] ddBody = some (S "RattrBinOpInNameable") := by decide +kernel
 
-/-- each counterexample body is rejected by the predicate (the exclusion is not vacuous on them). -/
+/-- K22 (found while proving the names invariant): `sorted(xs, key=lambda getattr: getattr(q, 'x').m)` — the
+name `getattr(q, 'x').m` has basename `getattr` and full name `q.x.m`; unbinding the lambda parameter
+`getattr` looks for the prefix `getattr` → `ValueError("never")` in `unbind_name`. -/
+def k22Body : List Node :=
+  [.ret [.call (nm "sorted") [nm "xs"] [some (S "key")]
+    [.lam (ps ["getattr"]) (.attr (.call (nm "getattr") [nm "q", .strConst (S "x")] [] []) (S "m") .load)]]]
+theorem C07_cex_K22_unbind_never : run ["xs", "q"] k22Body = some (S "ValueError") := by decide +kernel
+
+/-- each counterexample body is rejected by both predicates (the exclusions are not vacuous on them). -/
 theorem C07_cex_bodies_rejected :
-    [k3Body, k4StoreBody, k4DelBody, k4ForBody, k4WithBody, k5Body, k5ArgBody, ddBody].all
-      (fun b => !NoCrashShapeFn b) = true := by decide +kernel
+    [k3Body, k4StoreBody, k4DelBody, k4ForBody, k4WithBody, k5Body, k5ArgBody, ddBody, k22Body].all
+      (fun b => !NoCrashShapeFn b && !NoCrashShapeFnAnyCtx b) = true := by decide +kernel
 
 theorem C07_full_false : ¬ C07_full := by
   intro h
@@ -156,13 +204,290 @@ def goodBody : List Node :=
      [.other (S "Expr") [.call (nm "print") [.attr (nm "i") (S "z") .load, .attr (binop (nm "a") (nm "b")) (S "w") .load] [] []]] [],
    .ret [.attr (.call (nm "getattr") [nm "a", .strConst (S "n")] [] []) (S "m") .load]]
 
+example : NoCrashShapeFnAnyCtx goodBody = true := by decide +kernel
 example : NoCrashShapeFn goodBody = true := by decide +kernel
-example : FnNoCrash goodBody := C07_fn_no_crash_partial goodBody (by decide +kernel)
-/-- and the analysis of that body really ends `ok` with a non-empty IR in the counterexample environment. -/
-def okSizes : Res → Option (Nat × Nat × Nat)
-  | .ok s => some (s.gets.length, s.sets.length, s.calls.length)
+example : FnNoCrash goodBody := C07_fn_no_crash_anyctx_partial goodBody (by decide +kernel)
+example : FnNoCrashSane goodBody := C07_fn_no_crash_partial goodBody (by decide +kernel)
+example : SaneCtx cexRoot = true := by decide +kernel
+
+/-- what the wider predicate accepts and the round-1 predicate rejected:
+`y = sorted(xs, key=lambda w: w.k.j); f(1, x); return (a + b).m(a), 'sep'.join(b), Cls(1, a)`; then an
+`import` (always fatal) makes the unnameable store after it unreachable. -/
+def widerBody : List Node :=
+  [.assign [.name (S "y") .store]
+     (.call (nm "sorted") [nm "xs"] [some (S "key")] [.lam (ps ["w"]) (.attr (.attr (nm "w") (S "k") .load) (S "j") .load)]),
+   .other (S "Expr") [.call (nm "f") [.const, nm "x"] [] []],
+   .ret [.seq (S "Tuple") [.call (.attr (binop (nm "a") (nm "b")) (S "m") .load) [nm "a"] [] [],
+                            .call (.attr (.strConst (S "sep")) (S "join") .load) [nm "b"] [] [],
+                            .call (nm "Cls") [.const, nm "a"] [] []] .load],
+   .other (S "If") [nm "a", .forbidden (S "Import")],
+   .assign [unnameableTarget] .const]
+example : NoCrashShapeFnAnyCtx widerBody = false := by decide +kernel
+example : NoCrashShapeFn widerBody = true := by decide +kernel
+example : FnNoCrashSane widerBody := C07_fn_no_crash_partial widerBody (by decide +kernel)
+/-- the key lambda is really analysed and unbound: `w.k.j` comes back as `xs.k.j`. -/
+def okGets : Res → Option (List Str)
+  | .ok s => some (s.gets.map (·.full))
+  | .fatal s _ => some (s.gets.map (·.full))
   | _ => none
-example : okSizes (FnA.analyse cexEnv (S "target") cexRoot (ps ["a", "b", "c", "x"]) goodBody) = some (6, 2, 1) := by
+
+example : okGets (FnA.analyse cexEnv (S "target") cexRoot (ps ["xs", "x", "a", "b"]) widerBody)
+    = some [S "xs", S "xs.k.j", S "x", S "a", S "b"] := by decide +kernel
+
+/-! ### Crash-freedom of the single-file pipeline (RattrModel/CrashFile.lean) -/
+
+/-- the property for one module: the root-context builder and the file / class / function analysers never end
+in an unhandled exception, and whatever exception `python -m rattr -f 0 file.py` can still die of is one of
+the three of result generation (`Crash.resultsCrashes`: `unbind_name`'s ValueError K22, `resolve_import`'s
+ImportError K9 / K10, the marker of a missing per-case fact). -/
+def FileNoCrash (env : Env) (mn : Str) (f : Facts) (builtins : List Str) (body : List Top) : Prop :=
+  (∀ s e, RootCtx.compile f builtins body ≠ .crash s e) ∧
+  (∀ e, FileA.analyseFile env mn f builtins body ≠ .crash e) ∧
+  (∀ imp e, Pipeline.run env mn f builtins body imp = .crash e → e ∈ resultsCrashes)
+
+/-- **Main theorem for a module.** For EVERY module satisfying the decidable predicate `NoCrashShapeFile`
+(plugin table, module name, per-case facts, builtins: all arbitrary): stage S2 ends `ok` / `fatal`, stages
+S2 + S4 end `ok` / `fatal`, and the whole pipeline ends `ok` / `fatal` or in one of the three exceptions of
+result generation — never in the `ValueError` of `gen_import_from_stmt` (K1), the `AssertionError` of a relative
+import (K8), a naming exception at module level (K4), `TypeError` of `get_attrname` (K2), `AttributeError` of a
+`rattr_results` call spec (K7), `customOnDef`, `ValueError` of `ClassAnalyser.symbol` (K11), `NotImplementedError`
+of the walrus branch, any "unreachable" arm, any crash of the function analyser (K3 / K4 / K5 / K22-in-`sorted`), nor
+`Outside:starred-import`. Composition of `compile_good` (S2), `visitTops_good` (S4, over `analyse_spec` for every
+analysed body) and `results_crash`. -/
+theorem C07_file_no_crash_partial (env : Env) (mn : Str) (f : Facts) (builtins : List Str) (body : List Top)
+    (h : NoCrashShapeFile env.analysers mn f builtins body = true) : FileNoCrash env mn f builtins body := by
+  obtain ⟨hreg, hshape, hbound⟩ := shapeFile_parts h
+  have hc := compile_good f builtins body hreg
+  refine ⟨hc.1, ?_, ?_⟩
+  · intro e he
+    unfold FileA.analyseFile at he
+    cases hr : RootCtx.compile f builtins body with
+    | ok r =>
+      rw [hr] at he
+      simp only [] at he
+      have hw := analyseWith_good env mn f r.ctx body hshape (GoodCtx.sane (hc.2 r hr)) (hbound r hr)
+      cases ha : FileA.analyseWith env mn f r.ctx body with
+      | ok s => rw [ha] at he; cases he
+      | fatal s d => rw [ha] at he; cases he
+      | crash s e' => exact hw.1 s e' ha
+    | fatal r d => rw [hr] at he; cases he
+    | crash r e' => exact hc.1 r e' hr
+  · intro imp e he
+    unfold Pipeline.run Pipeline.runWith at he
+    cases hr : RootCtx.compile f builtins body with
+    | ok r =>
+      rw [hr] at he
+      simp only [] at he
+      rw [(GoodCtx.noStar (hc.2 r hr))] at he
+      simp only [Bool.false_eq_true, if_false] at he
+      have hw := analyseWith_good env mn f r.ctx body hshape (GoodCtx.sane (hc.2 r hr)) (hbound r hr)
+      cases ha : FileA.analyseWith env mn f r.ctx body with
+      | ok s =>
+        rw [ha] at he
+        simp only [] at he
+        cases hres : Pipeline.results id f imp s.ir with
+        | ok q => rw [hres] at he; obtain ⟨doc, ds⟩ := q; cases he
+        | fatal ds d => rw [hres] at he; cases he
+        | crash e' =>
+          rw [hres] at he
+          simp only [FileA.Outcome.crash.injEq] at he
+          subst he
+          exact results_crash id f imp s.ir e' hres
+      | fatal s d => rw [ha] at he; cases he
+      | crash s e' => exact absurd ha (hw.1 s e')
+    | fatal r d => rw [hr] at he; cases he
+    | crash r e' => exact absurd hr (hc.1 r e')
+
+/-- **Result generation** (stage S6) under the decidable condition `ResultsSafe` on the FileIr (every name starts
+with its basename — false exactly on the K22 names —, no parameter name starts with `*`, every import a call
+resolves to is found): for EVERY FileIr, call graph (recursion, shared callees) and order of ties it ends with a
+document. By the store invariant "every name of every entry is `nameWF`" through `foldTree` / `genLoop`. -/
+theorem C07_results_no_crash_partial (ord : List CallSym → List CallSym) (f : Facts) (imp : Pipeline.ImpFacts)
+    (fir : Pipeline.FileIr) (h : ResultsSafe imp fir = true) :
+    ∃ doc ds, Pipeline.results ord f imp fir = .ok (doc, ds) :=
+  results_ok ord f imp fir h
+
+/-- **The whole single-file pipeline**: for EVERY module satisfying `NoCrashShapePipeline` (= `NoCrashShapeFile` +
+`ResultsSafe` of the FileIr the front-stage model computes; decidable) `python -m rattr -f 0 file.py` ends with
+its results or with a `fatal:` diagnostic — no crash outcome at all. -/
+theorem C07_pipeline_no_crash_partial (env : Env) (mn : Str) (f : Facts) (builtins : List Str) (body : List Top)
+    (imp : Pipeline.ImpFacts) (h : NoCrashShapePipeline env mn f builtins body imp = true) :
+    (∃ doc ds, Pipeline.run env mn f builtins body imp = .ok (doc, ds)) ∨
+    (∃ ds d, Pipeline.run env mn f builtins body imp = .fatal ds d) := by
+  simp only [NoCrashShapePipeline, Bool.and_eq_true] at h
+  obtain ⟨hfile, hres⟩ := h
+  obtain ⟨hreg, hshape, hbound⟩ := shapeFile_parts hfile
+  have hc := compile_good f builtins body hreg
+  unfold Pipeline.run Pipeline.runWith
+  unfold FileA.analyseFile at hres
+  cases hr : RootCtx.compile f builtins body with
+  | ok r =>
+    rw [hr] at hres
+    simp only [] at hres ⊢
+    rw [GoodCtx.noStar (hc.2 r hr)]
+    simp only [Bool.false_eq_true, if_false]
+    have hw := analyseWith_good env mn f r.ctx body hshape (GoodCtx.sane (hc.2 r hr)) (hbound r hr)
+    cases ha : FileA.analyseWith env mn f r.ctx body with
+    | ok s =>
+      rw [ha] at hres
+      simp only [] at hres ⊢
+      obtain ⟨doc, ds, hd⟩ := results_ok id f imp s.ir hres
+      rw [hd]
+      exact Or.inl ⟨_, _, rfl⟩
+    | fatal s d => exact Or.inr ⟨_, _, rfl⟩
+    | crash s e => exact absurd ha (hw.1 s e)
+  | fatal r d => exact Or.inr ⟨_, _, rfl⟩
+  | crash r e => exact absurd hr (hc.1 r e)
+
+/-- … and the root context such a module compiles to is sane (the hypothesis of `C07_fn_no_crash_partial` for every
+function analysed in it) and holds no starred import. -/
+theorem C07_file_root_context_sane (f : Facts) (builtins : List Str) (body : List Top) (h : registerLOk body = true)
+    (r : St) (hr : RootCtx.compile f builtins body = .ok r) :
+    SaneCtx r.ctx = true ∧ Pipeline.hasStarred r.ctx = false :=
+  ⟨GoodCtx.sane ((compile_good f builtins body h).2 r hr), GoodCtx.noStar ((compile_good f builtins body h).2 r hr)⟩
+
+/-- **"never hangs"** for the pipeline model: every stage is a total function (structural recursion over the
+module / the AST; the two work-list loops of result generation run on fuel), and the fuel always suffices: for
+EVERY FileIr, result generation never answers `OutOfFuel` (no hypothesis; `Results.callTree_terminates`). -/
+theorem C07_pipeline_terminates :
+    (∀ ord f imp fir, Pipeline.results ord f imp fir ≠ .crash "OutOfFuel".toList) ∧
+    (∀ env mn f builtins body imp, ∃ o, Pipeline.run env mn f builtins body imp = o) := by
+  refine ⟨fun ord f imp fir he => ?_, fun _ _ _ _ _ _ => ⟨_, rfl⟩⟩
+  have := results_crash ord f imp fir _ he
+  revert this
+  decide
+
+/-! ### Counterexamples for the module-level stages (tests by evaluation) and the residual classes -/
+
+def fps (l : List String) : Params := ⟨[], l.map S, none, [], none⟩
+def exBuiltins : List Str := ["sorted", "print", "getattr"].map S
+
+def crashClassO {α : Type} : FileA.Outcome α → Option Str
+  | .crash e => some e
+  | _ => none
+
+def shapeFile (mn : String) (f : Facts) (body : List Top) : Bool :=
+  NoCrashShapeFile cexEnv.analysers (S mn) f exBuiltins body
+
+/-- K1: `from a.b import *` outside `__init__.py` → `ValueError` in `gen_import_from_stmt`. -/
+def mK1 : List Top := [.importFrom (some (S "a.b")) 0 [⟨S "*", none⟩] [] false true]
+theorem C07_cex_file_K1_dotted_star : crashClass (RootCtx.compile {} exBuiltins mK1) = some (S "ValueError") := by
+  decide +kernel
+/-- K8: a relative import whose module is found under another name → the `assert`. -/
+def mK8 : List Top := [.importFrom (some (S "m")) 1 [⟨S "f", none⟩] (S "pkg.m") false false]
+theorem C07_cex_file_K8_relative_assert : crashClass (RootCtx.compile {} exBuiltins mK8) = some (S "AssertionError") := by
+  decide +kernel
+/-- K4 at module level: `(a + b).c = 1`, `del (a + b).c`. -/
+def mK4 : List Top := [.assign [unnameableTarget] [] (some .const)]
+def mK4del : List Top := [.delete [.attr (binop (nm "a") (nm "b")) (S "c") .del]]
+theorem C07_cex_file_K4_module_level :
+    crashClass (RootCtx.compile {} exBuiltins mK4) = some (S "RattrBinOpInNameable") ∧
+    crashClass (RootCtx.compile {} exBuiltins mK4del) = some (S "RattrBinOpInNameable") := by decide +kernel
+/-- K2: a decorator that is no Name / Attribute / Call (`@d[0]`) → `TypeError` in `get_attrname`. -/
+def mK2 : List Top := [.funcDef (S "f") (fps ["a"]) [.ret [.attr (nm "a") (S "x") .load]] [⟨.bad, none⟩] false]
+theorem C07_cex_file_K2_decorator :
+    crashClassO (FileA.analyseFile cexEnv (S "target") {} exBuiltins mK2) = some (S "TypeError") := by decide +kernel
+/-- K7: `@rattr_results(calls=[('f', (['a'], ['b']))])` → `.items()` on a list. -/
+def k7Deco : Ann.Deco := ⟨.named (S "rattr_results"),
+  some ([], [(some (S "calls"), .list [.tuple [.str (S "f"), .tuple [.list [.str (S "a")], .list [.str (S "b")]]]])])⟩
+def mK7 : List Top := [.funcDef (S "g") (fps ["a"]) [] [k7Deco] false]
+theorem C07_cex_file_K7_call_spec :
+    crashClassO (FileA.analyseFile cexEnv (S "target") {} exBuiltins mK7) = some (S "AttributeError") := by decide +kernel
+/-- `def defaultdict` in a module called `collections`: the custom analyser's `on_def`. -/
+def mCustom : List Top := [.funcDef (S "defaultdict") (fps ["a"]) [] [] false]
+theorem C07_cex_file_custom_on_def :
+    crashClassO (FileA.analyseFile cexEnv (S "collections") {} exBuiltins mCustom) = some (S "customOnDef") := by
+  decide +kernel
+/-- K11: `def C(a): …` then `class C:` with an `__init__` → `ValueError` in `ClassAnalyser.symbol`. -/
+def mK11 : List Top :=
+  [.funcDef (S "C") (fps ["a"]) [.ret [.attr (nm "a") (S "x") .load]] [] false,
+   .classDef (S "C") [] [.funcDef (S "__init__") (fps ["self", "q"]) [] [] false] []]
+theorem C07_cex_file_K11_class_symbol :
+    crashClassO (FileA.analyseFile cexEnv (S "target") {} exBuiltins mK11) = some (S "ValueError") := by decide +kernel
+
+/-- every one of them is rejected by the predicate. -/
+theorem C07_cex_file_modules_rejected :
+    [shapeFile "target" {} mK1, shapeFile "target" {} mK8, shapeFile "target" {} mK4, shapeFile "target" {} mK4del,
+     shapeFile "target" {} mK2, shapeFile "target" {} mK7, shapeFile "collections" {} mCustom,
+     shapeFile "target" {} mK11] = List.replicate 8 false := by decide +kernel
+
+/-- **the residual classes are real**: K22 in result generation — `def f(getattr, q): return getattr(q, 'x').m`,
+`def g(b, c): return f(b, c)` satisfies the predicate, the front stages succeed, and `unbind_name` raises
+`ValueError("never")` while `g`'s call to `f` is folded. (Confirmed against the real code: a NEW finding.) -/
+def mK22 : List Top :=
+  [.funcDef (S "f") (fps ["getattr", "q"])
+     [.ret [.attr (.call (nm "getattr") [nm "q", .strConst (S "x")] [] []) (S "m") .load]] [] false,
+   .funcDef (S "g") (fps ["b", "c"]) [.ret [.call (nm "f") [nm "b", nm "c"] [] []]] [] false]
+theorem C07_cex_file_K22_results_unbind :
+    shapeFile "target" {} mK22 = true ∧
+    crashClassO (Pipeline.run cexEnv (S "target") {} exBuiltins mK22 []) = some (S "ValueError") := by decide +kernel
+/-- K9: `import lp` + `lp.nosuch.f(a)` → `ImportError` in `resolve_import`, likewise behind a module that
+satisfies the predicate. -/
+def mK9 : List Top :=
+  [.importStmt [⟨S "lp", none⟩],
+   .funcDef (S "g") (fps ["a"])
+     [.other (S "Expr") [.call (.attr (.attr (nm "lp") (S "nosuch") .load) (S "f") .load) [nm "a"] [] []]] [] false]
+def fLp : Facts := { mods := [(S "lp", { blacklisted := false, originFound := true, modExists := true })] }
+theorem C07_cex_file_K9_results_import_error :
+    shapeFile "target" fLp mK9 = true ∧
+    crashClassO (Pipeline.run cexEnv (S "target") fLp exBuiltins mK9
+      [(S "lp.nosuch.f", { found := false, blacklisted := false })]) = some (S "ImportError") := by decide +kernel
+
+/-- crash-freedom of the whole pipeline without hypotheses on result generation is therefore false. -/
+theorem C07_pipeline_full_false :
+    ¬ (∀ env mn f builtins body imp, NoCrashShapeFile env.analysers mn f builtins body = true →
+        ∀ e, Pipeline.run env mn f builtins body imp ≠ .crash e) := by
+  intro h
+  have h1 := C07_cex_file_K22_results_unbind
+  have := h cexEnv (S "target") {} exBuiltins mK22 [] h1.1
+  cases hr : Pipeline.run cexEnv (S "target") {} exBuiltins mK22 [] with
+  | ok q => rw [hr] at h1; simp [crashClassO] at h1
+  | fatal ds d => rw [hr] at h1; simp [crashClassO] at h1
+  | crash e => exact this e hr
+
+/-! ### Non-vacuity: a module satisfying the predicate, through the whole pipeline (tests) -/
+
+def exStatic : Ann.Deco := ⟨.named (S "staticmethod"), none⟩
+/-- `import os; class K: def __init__(self, v): self.v = v.kv; @staticmethod def sm(w): return w.s;
+lam2 = lambda p: p.q; def top(a, b): return sorted(a.xs, key=lambda w: w.k), K(b).v, K.sm(a), lam2(a), os.getcwd()` -/
+def exModule : List Top :=
+  [.importStmt [⟨S "os", none⟩],
+   .classDef (S "K") []
+     [.funcDef (S "__init__") (fps ["self", "v"])
+        [.assign [.attr (nm "self") (S "v") .store] (.attr (nm "v") (S "kv") .load)] [] false,
+      .funcDef (S "sm") (fps ["w"]) [.ret [.attr (nm "w") (S "s") .load]] [exStatic] false] [],
+   .assign [.name (S "lam2") .store] [] (some (.lam (fps ["p"]) (.attr (nm "p") (S "q") .load))),
+   .funcDef (S "top") (fps ["a", "b"])
+     [.ret [.seq (S "Tuple")
+        [.call (nm "sorted") [.attr (nm "a") (S "xs") .load] [some (S "key")] [.lam (fps ["w"]) (.attr (nm "w") (S "k") .load)],
+         .attr (.call (nm "K") [nm "b"] [] []) (S "v") .load,
+         .call (.attr (nm "K") (S "sm") .load) [nm "a"] [] [],
+         .call (nm "lam2") [nm "a"] [] [],
+         .call (.attr (nm "os") (S "getcwd") .load) [] [] []] .load]] [] false]
+def exFacts : Facts := { mods := [(S "os", { blacklisted := false, originFound := true, modExists := true })] }
+def exImp : Pipeline.ImpFacts := [(S "os.getcwd", { found := true, blacklisted := false })]
+
+example : NoCrashShapeFile cexEnv.analysers (S "target") exFacts exBuiltins exModule = true := by decide +kernel
+example : FileNoCrash cexEnv (S "target") exFacts exBuiltins exModule :=
+  C07_file_no_crash_partial cexEnv (S "target") exFacts exBuiltins exModule (by decide +kernel)
+/-- and the pipeline really ends with a document for the four callables of that module. -/
+def docKeys {α : Type} : FileA.Outcome (Pipeline.ResultsDoc × α) → Option (List Str)
+  | .ok (doc, _) => some (doc.map (·.1))
+  | _ => none
+example : docKeys (Pipeline.run cexEnv (S "target") exFacts exBuiltins exModule exImp)
+    = some [S "K", S "K.sm", S "lam2", S "top"] := by decide +kernel
+example : registerLOk exModule = true := by decide +kernel
+example : NoCrashShapePipeline cexEnv (S "target") exFacts exBuiltins exModule exImp = true := by decide +kernel
+example : ∃ doc ds, Pipeline.run cexEnv (S "target") exFacts exBuiltins exModule exImp = .ok (doc, ds) := by
+  rcases C07_pipeline_no_crash_partial cexEnv (S "target") exFacts exBuiltins exModule exImp (by decide +kernel) with h | ⟨ds, d, h⟩
+  · exact h
+  · have hk : docKeys (Pipeline.run cexEnv (S "target") exFacts exBuiltins exModule exImp) = some [S "K", S "K.sm", S "lam2", S "top"] := by
+      decide +kernel
+    rw [h] at hk; simp [docKeys] at hk
+/-- the two residual modules are rejected by the pipeline predicate (through `ResultsSafe`). -/
+theorem C07_cex_pipeline_modules_rejected :
+    NoCrashShapePipeline cexEnv (S "target") {} exBuiltins mK22 [] = false ∧
+    NoCrashShapePipeline cexEnv (S "target") fLp exBuiltins mK9 [(S "lp.nosuch.f", { found := false, blacklisted := false })] = false := by
   decide +kernel
 
 end Rattr.C07
